@@ -265,12 +265,31 @@ Proof.
   rewrite Hcom, (strip_hash_id _ Hhash), (trim_id c r Hws Hends), Hsplit. reflexivity.
 Qed.
 
+Lemma split_first_ws_nows_app x w r : nows x = true -> java_ws w = true -> split_first_ws (x ++ w :: r) = [x; r].
+Proof.
+  intros Hx Hw. induction x as [|c x IH].
+  - cbn [app split_first_ws]. rewrite Hw. reflexivity.
+  - cbn [nows forallb] in Hx. apply andb_true_iff in Hx as [Hc Hx]. apply negb_true_iff in Hc.
+    cbn [app split_first_ws]. rewrite Hc, (IH Hx). reflexivity.
+Qed.
+
+(* a written COMMENT line: the tag, and the text after the one separating space AS IT IS — whatever it contains *)
 Lemma enigma_line_comment n l :
-  enigma_line (tabs n ++ s_COMMENT ++ cSP :: l) = Some (mkEline n s_COMMENT (split_ws l)).
+  enigma_line (tabs n ++ s_COMMENT ++ cSP :: l) = Some (mkEline n s_COMMENT [l]).
 Proof.
   unfold enigma_line. rewrite count_tabs_tabs by reflexivity.
   assert (Hs : starts_with s_COMMENT (s_COMMENT ++ cSP :: l) = true) by (apply starts_with_app; eexists; reflexivity).
-  rewrite Hs. rewrite (split_ws_nows_app s_COMMENT l) by reflexivity. reflexivity.
+  rewrite Hs. reflexivity.
+Qed.
+
+(* the tokeniser on ANY line that starts (after its tabs) with `COMMENT` and a separator: nothing is trimmed, `#` stays,
+   the text is not split *)
+Lemma enigma_line_comment_any n w l : java_ws w = true ->
+  enigma_line (tabs n ++ s_COMMENT ++ w :: l) = Some (mkEline n s_COMMENT [l]).
+Proof.
+  intros Hw. unfold enigma_line. rewrite count_tabs_tabs by reflexivity.
+  assert (Hs : starts_with s_COMMENT (s_COMMENT ++ w :: l) = true) by (apply starts_with_app; eexists; reflexivity).
+  rewrite Hs. rewrite (split_first_ws_nows_app s_COMMENT w l) by (reflexivity || exact Hw). reflexivity.
 Qed.
 
 Lemma enigma_line_header fname : enigma_line (cHASH :: cSP :: fname) = None.
@@ -311,7 +330,7 @@ Proof. apply forallb_join_sp. reflexivity. Qed.
 Definition ins_doc (a : option str) (s : str) : option str :=
   match a with Some d => Some (d ++ cLF :: s) | None => Some s end.
 
-Lemma ins_comment_doc doc n l : ins_comment doc (mkEline n s_COMMENT (split_ws l)) = ins_doc doc (join_sp (split_ws l)).
+Lemma ins_comment_doc doc n l : ins_comment doc (mkEline n s_COMMENT [l]) = ins_doc doc l.
 Proof. reflexivity. Qed.
 
 Lemma fold_ins_doc_some L a : fold_left ins_doc L (Some a) = Some (join_c cLF (a :: L)).
@@ -329,29 +348,48 @@ Proof.
   cbn [fold_left ins_doc]. rewrite fold_ins_doc_some, <- E, join_split_on. reflexivity.
 Qed.
 
-(* a comment: no TAB, VT, FF, CR (LF separates the lines) *)
-Definition doc_chars (s : str) : bool := forallb (fun c => negb (mem_N c [9; 11; 12; 13])) s.
+(* a comment the writer accepts: none of its lines (LF separates them) ends with CR — Model.doc_writable *)
+Definition nolf (s : str) : bool := forallb (fun c => negb (N.eqb c cLF)) s.
 
-Lemma doc_line_sp_only d l : doc_chars d = true -> In l (split_on cLF d) -> sp_only l = true.
+Lemma ends_cr_app x t : t <> [] -> ends_cr (x ++ t) = ends_cr t.
 Proof.
-  intros Hd Hl. assert (Hfree := split_on_parts_free _ _ _ Hl).
-  assert (Hc := split_on_parts_forallb _ _ _ _ Hd Hl). unfold sp_only.
-  rewrite forallb_forall in *. intros c Hin. specialize (Hc c Hin).
-  assert (Hne : c <> cLF) by (intros ->; contradiction).
-  unfold java_ws, mem_N, cSP, cLF in *. cbn [existsb] in *.
-  destruct (N.eqb_spec c 32); [reflexivity|].
-  destruct (N.eqb_spec c 10); [contradiction|].
-  destruct (N.eqb c 9), (N.eqb c 11), (N.eqb c 12), (N.eqb c 13); cbn in *; try discriminate; reflexivity.
+  intros Ht. induction x as [|c x IH]; [reflexivity|].
+  cbn [app ends_cr]. destruct (x ++ t) eqn:E; [|exact IH].
+  destruct x; cbn [app] in E; [congruence|discriminate].
 Qed.
 
-Lemma doc_line_no_lfcr d l : doc_chars d = true -> In l (split_on cLF d) -> no_lfcr l = true.
+Lemma nolf_line_ok l : nolf l = true -> ends_cr l = false -> line_ok l = true.
 Proof.
-  intros Hd Hl. assert (Hfree := split_on_parts_free _ _ _ Hl).
-  assert (Hc := split_on_parts_forallb _ _ _ _ Hd Hl). unfold no_lfcr.
-  rewrite forallb_forall in *. intros c Hin. specialize (Hc c Hin).
-  apply andb_true_iff. split.
-  - apply negb_true_iff. apply N.eqb_neq. intros ->. contradiction.
-  - unfold mem_N in Hc. cbn [existsb] in Hc. rewrite !negb_orb in Hc. repeat (apply andb_true_iff in Hc as [? Hc]). exact H2.
+  induction l as [|c l IH]; intros Hn He; [reflexivity|].
+  cbn [nolf forallb] in Hn. apply andb_true_iff in Hn as [Hc Hl].
+  cbn [line_ok]. rewrite Hc. cbn [andb]. destruct l as [|x l].
+  - cbn [ends_cr] in He. rewrite He. reflexivity.
+  - apply IH; [exact Hl|]. exact He.
+Qed.
+
+Lemma line_ok_nolf l : line_ok l = true -> nolf l = true /\ ends_cr l = false.
+Proof.
+  induction l as [|c l IH]; intros H; [split; reflexivity|].
+  cbn [line_ok] in H. apply andb_true_iff in H as [Hc Hl]. destruct l as [|x l].
+  - split; [cbn [nolf forallb]; rewrite Hc; reflexivity|]. cbn [ends_cr]. apply negb_true_iff. exact Hl.
+  - destruct (IH Hl) as [Hn He]. split; [cbn [nolf forallb] in *; rewrite Hc; exact Hn|exact He].
+Qed.
+
+Lemma doc_line_nolf d l : In l (split_on cLF d) -> nolf l = true.
+Proof.
+  intros Hl. assert (Hfree := split_on_parts_free _ _ _ Hl). unfold nolf. apply forallb_forall.
+  intros c Hc. apply negb_true_iff. apply N.eqb_neq. intros ->. contradiction.
+Qed.
+
+Lemma comment_line_ok n l : nolf l = true -> ends_cr l = false -> line_ok (tabs n ++ s_COMMENT ++ cSP :: l) = true.
+Proof.
+  intros Hn He. apply nolf_line_ok.
+  - unfold nolf. rewrite !forallb_app. cbn [forallb]. fold (nolf l). rewrite Hn.
+    replace (forallb (fun c => negb (N.eqb c cLF)) s_COMMENT) with true by reflexivity.
+    assert (Ht : forallb (fun c => negb (N.eqb c cLF)) (tabs n) = true).
+    { induction n as [|n IH]; [reflexivity|]. cbn [tabs repeat forallb]. fold (tabs n). exact IH. }
+    rewrite Ht. reflexivity.
+  - rewrite app_assoc, ends_cr_app by discriminate. cbn [ends_cr]. destruct l; [reflexivity|exact He].
 Qed.
 
 (* ---------- decimal indices ---------- *)
